@@ -58,6 +58,15 @@ def decision_shape(t, e):
         'quoted' if chain else 'bare'
 
 
+def class_functions(prog, f):
+    """__call__ plus the helpers of the remote-check module it reaches."""
+    fns = [f]
+    for q, g in prog.region(f).items():
+        if g.module.name == EXT and g is not f and g.name != '__init__':
+            fns.append(g)
+    return fns
+
+
 def check_class(ctx, name, cq):
     prog = ctx.prog
     f = prog.find_method(cq, '__call__')
@@ -65,7 +74,16 @@ def check_class(ctx, name, cq):
         raise AnalysisError('%s has no __call__' % cq)
     prm = f.params
     target_p, creds_p, enf_p = prm[1], prm[2], prm[3]
-    t = Table(prog, f, max_paths=100000)
+    fns = class_functions(prog, f)
+    helper_quals = {g.qual for g in fns if g is not f}
+
+    def inline(call, frame):
+        g = prog.callee_of(frame, call)
+        if g is None or g.qual not in helper_quals:
+            return None
+        return g
+    t = Table(prog, f, inline=inline if helper_quals else None,
+              max_paths=200000)
     F = ctx.where(f.module, f.node).split(':')[0]
     seen = set()
     canon = set()
@@ -82,7 +100,9 @@ def check_class(ctx, name, cq):
             if key not in seen:
                 seen.add(key)
                 ctx.ob('C16.DECIDE', ok, '%s:%d' % (F, p.outcome.line),
-                       f.qual, 'decision ' + p.outcome.text()[:80],
+                       f.qual, 'decision ' + U(t.expand(
+                           p.outcome.expr))[:80]
+                       if p.outcome.expr is not None else 'decision None',
                        detail if ok else
                        'the remote check does not decide by `reply body '
                        "without surrounding double quotes == 'True'`: "
@@ -97,87 +117,128 @@ def check_class(ctx, name, cq):
                     'an exception (path: %s)' % p.cond_text()[-200:])
     ctx.count(len(t.paths))
     ctx.floor('C16.DECIDE', n_ret, 1, 'decision returns')
-    # handlers raise
-    nh = 0
-    for n in walk_no_nested(f.node):
-        if isinstance(n, ast.Try):
-            for h in n.handlers:
-                nh += 1
-                last = h.body[-1] if h.body else None
-                ok = isinstance(last, ast.Raise) and not any(
-                    isinstance(x, ast.Return) for x in ast.walk(h))
-                ctx.ob('C16.NO-ALLOW-ON-ERROR', ok, ctx.where(f.module, h),
-                       f.qual, 'except %s' % (U(h.type) if h.type else ''),
-                       'a failed request raises' if ok else
-                       'a timeout/transport failure is turned into a '
-                       'decision instead of raising')
-    # the request
-    posts = [c for c in ast.walk(f.node) if isinstance(c, ast.Call)
-             and prog.resolve(f.module, c.func) == 'ext:requests.post']
-    ctx.floor('C16.URL', len(posts), 1, 'requests.post calls')
+    # handlers raise (in __call__ and in its helpers)
+    for g in fns:
+        for n in walk_no_nested(g.node):
+            if isinstance(n, ast.Try):
+                for h in n.handlers:
+                    last = h.body[-1] if h.body else None
+                    ok = isinstance(last, ast.Raise) and not any(
+                        isinstance(x, ast.Return) for x in ast.walk(h))
+                    ctx.ob('C16.NO-ALLOW-ON-ERROR', ok,
+                           ctx.where(g.module, h), g.qual,
+                           'except %s' % (U(h.type) if h.type else ''),
+                           'a failed request raises' if ok else
+                           'a timeout/transport failure is turned into a '
+                           'decision (or a returned value) instead of '
+                           'raising')
+    # the request, as seen at the requests.post call with helpers inlined
+    n_post = 0
+    seen_post = set()
     payload_fn = None
-    for c in posts:
-        url = c.args[0] if c.args else kwarg(c, 'url')
-        ux = url
-        # follow a local
-        if isinstance(url, ast.Name):
-            for a in walk_no_nested(f.node):
-                if isinstance(a, ast.Assign) and U(a.targets[0]) == url.id:
-                    ux = a.value
-        ok = isinstance(ux, ast.BinOp) and isinstance(ux.op, ast.Mod) and \
-            U(ux.right) == target_p and isinstance(ux.left, ast.BinOp) and \
-            isinstance(ux.left.op, ast.Add) and is_const(
-                ux.left.left, SCHEMES[name]) and U(
-                    ux.left.right) == 'self.match'
-        ctx.ob('C16.URL', ok, ctx.where(f.module, c), f.qual,
-               'url ' + U(ux)[:60],
-               "the request goes to ('%s' + match) %% target" % SCHEMES[name]
-               if ok else 'the request URL is not (%r + self.match) %% '
-               'target' % SCHEMES[name])
-        # payload arguments come from the payload builder
-        dk, jk, tk = kwarg(c, 'data'), kwarg(c, 'json'), kwarg(c, 'timeout')
-        srcs = {}
-        for a in walk_no_nested(f.node):
-            if isinstance(a, ast.Assign) and isinstance(
-                    a.targets[0], ast.Tuple) and isinstance(
-                        a.value, ast.Call):
-                g = prog.callee_of(f, a.value)
-                if g is not None:
-                    names = [U(x) for x in a.targets[0].elts]
-                    srcs = {'names': names, 'call': a.value, 'fn': g}
-        ok = dk is not None and jk is not None and srcs and [
-            U(dk), U(jk)] == srcs['names']
-        ctx.ob('C16.PAYLOAD', bool(ok), ctx.where(f.module, c), f.qual,
-               'post(data=%s, json=%s)' % (U(dk) if dk is not None else None,
-                                           U(jk) if jk is not None
-                                           else None),
-               'form and JSON payloads are passed as data= / json= '
-               'respectively' if ok else
-               'the payload builder\'s (data, json) pair is not passed as '
-               'data= and json= in that order')
-        if srcs:
-            payload_fn = srcs['fn']
-            pc = srcs['call']
-            gp = payload_fn.params
-            bound = dict(zip(gp, [U(a) for a in pc.args]))
-            want = {'creds': creds_p, 'current_rule': prm[4] if len(prm) > 4
-                    else None, 'enforcer': enf_p, 'target': target_p}
-            okb = all(bound.get(k) == v for k, v in want.items())
-            ctx.ob('C16.PAYLOAD', okb, ctx.where(f.module, pc), f.qual,
-                   U(pc)[:80], 'the payload is built from this call\'s '
-                   'credentials, policy name and target' if okb else
-                   'the payload builder receives its arguments in the wrong '
-                   'roles: %s' % bound)
-        ok = tk is not None and 'remote_timeout' in U(t.expand(tk)) or (
-            tk is not None and any(
-                isinstance(a, ast.Assign) and U(a.targets[0]) == U(tk)
-                and 'remote_timeout' in U(a.value)
-                for a in walk_no_nested(f.node)))
-        ctx.ob('C16.PAYLOAD', bool(ok), ctx.where(f.module, c), f.qual,
-               'timeout=' + (U(tk) if tk is not None else 'none'),
-               'the configured remote_timeout applies' if ok else
-               'the request is not made with the configured remote_timeout')
-    return f, canon, payload_fn
+    for g in fns:
+        if g is not f and any(
+                isinstance(r.value, ast.Tuple) and len(r.value.elts) == 2
+                for r in ast.walk(g.node) if isinstance(r, ast.Return)
+                and r.value is not None):
+            payload_fn = g
+    for p in t.paths:
+        for e in p.events:
+            if e.kind != 'call' or prog.resolve(
+                    t.module_of(e.frame), e.node.func) != \
+                    'ext:requests.post':
+                continue
+            c = e.node
+            url = c.args[0] if c.args else kwarg(c, 'url')
+            ux = t.expand(url) if url is not None else None
+            dk, jk, tk = kwarg(c, 'data'), kwarg(c, 'json'), kwarg(
+                c, 'timeout')
+            dx = t.expand(dk) if dk is not None else None
+            jx = t.expand(jk) if jk is not None else None
+            tx = t.expand(tk) if tk is not None else None
+            key = (e.line, U(ux) if ux is not None else None,
+                   U(dx)[:40] if dx is not None else None,
+                   U(jx)[:40] if jx is not None else None)
+            if key in seen_post:
+                continue
+            seen_post.add(key)
+            n_post += 1
+            where = '%s:%d' % (F, e.line)
+            ok = isinstance(ux, ast.BinOp) and isinstance(
+                ux.op, ast.Mod) and U(ux.right) == target_p and isinstance(
+                    ux.left, ast.BinOp) and isinstance(
+                        ux.left.op, ast.Add) and is_const(
+                            ux.left.left, SCHEMES[name]) and U(
+                                ux.left.right) == 'self.match'
+            ctx.ob('C16.URL', ok, where, f.qual,
+                   'url ' + (U(ux)[:60] if ux is not None else 'missing'),
+                   "the request goes to ('%s' + match) %% target"
+                   % SCHEMES[name] if ok else
+                   'the request URL is not (%r + self.match) %% target'
+                   % SCHEMES[name])
+            # exactly one of data / json carries the payload
+            form = [cnd for cnd in p.conds[:e.nconds] if cnd.kind == 'test'
+                    and 'remote_content_type' in U(cnd.expr)]
+            if not form:
+                ctx.ob('C16.PAYLOAD', False, where, f.qual,
+                       'encoding choice', 'the encoding of the request is '
+                       'not chosen by option remote_content_type')
+                continue
+            is_form = form[0].pol == ('x-www-form-urlencoded'
+                                      in U(form[0].expr))
+            used, other = (dx, jx) if is_form else (jx, dx)
+            okp, detail = payload_ok(t, used, other, is_form, prm)
+            ctx.ob('C16.PAYLOAD', okp, where, f.qual,
+                   '%s payload %s' % ('form' if is_form else 'json',
+                                      U(used)[:70] if used is not None
+                                      else None),
+                   'carries rule <- policy name, target <- copied target, '
+                   'credentials <- creds, passed as %s=' % (
+                       'data' if is_form else 'json') if okp else
+                   'the %s request payload is wrong: %s' % (
+                       'form' if is_form else 'json', detail))
+            okt = tx is not None and 'remote_timeout' in U(tx)
+            ctx.ob('C16.PAYLOAD', okt, where, f.qual,
+                   'timeout=' + (U(tx)[:50] if tx is not None else 'none'),
+                   'the configured remote_timeout applies' if okt else
+                   'the request is not made with the configured '
+                   'remote_timeout')
+    ctx.floor('C16.URL', n_post, 1, 'requests.post calls')
+    return f, canon, payload_fn, fns
+
+
+def payload_ok(t, used, other, is_form, prm):
+    """(ok, detail) for the payload mapping sent with the request."""
+    if not isinstance(used, ast.Dict):
+        return False, 'payload is %s' % (U(used)[:60] if used is not None
+                                         else None)
+    if not (other is None or is_const(other, None)):
+        return False, 'both data= and json= carry a payload'
+    keys = {k.value: v for k, v in zip(used.keys, used.values)
+            if isinstance(k, ast.Constant)}
+    if set(keys) != set(PAYLOAD):
+        return False, 'payload keys %s' % sorted(keys)
+    want = {'rule': prm[4] if len(prm) > 4 else 'current_rule',
+            'credentials': prm[2]}
+    for k in PAYLOAD:
+        v = keys[k]
+        if is_form:
+            if not (isinstance(v, ast.Call) and U(v.func).endswith('dumps')
+                    and v.args):
+                return False, '%s is not JSON-encoded in the form payload' \
+                    % k
+            v = v.args[0]
+        vx = t.expand(v)
+        if k in want:
+            if U(vx) != want[k]:
+                return False, '%s <- %s (expected %s)' % (k, U(vx)[:40],
+                                                          want[k])
+        else:
+            if not (isinstance(vx, ast.Call) and U(vx.func) ==
+                    'copy.deepcopy' and U(vx.args[0]) == prm[1]):
+                return False, 'target <- %s (expected a deep copy of the ' \
+                    'target)' % U(vx)[:40]
+    return True, ''
 
 
 def check_payload_builder(ctx, g):
@@ -292,9 +353,11 @@ def check(ctx):
     fns = []
     payload_fn = None
     for name, cq in classes.items():
-        f, canon, pf = check_class(ctx, name, cq)
+        f, canon, pf, cfns = check_class(ctx, name, cq)
         canons[name] = canon
-        fns.append(f)
+        for g in cfns:
+            if g not in fns:
+                fns.append(g)
         payload_fn = payload_fn or pf
     ok = canons['http'] == canons['https']
     ctx.ob('C16.DECIDE', ok, ctx.where(fns[1].module, fns[1].node),
@@ -302,10 +365,9 @@ def check(ctx):
            'both classes decide by the same expression' if ok else
            'the http and https checks decide differently: %s vs %s' % (
                sorted(canons['http']), sorted(canons['https'])))
-    if payload_fn is None:
-        raise AnalysisError('payload builder not found')
-    check_payload_builder(ctx, payload_fn)
-    check_target_ro(ctx, fns + [payload_fn])
+    if payload_fn is not None:
+        check_payload_builder(ctx, payload_fn)
+    check_target_ro(ctx, fns)
     # C16.NAME = C06.PASS-THROUGH
     from . import c06
     before, nob = len(ctx.findings), len(ctx.obligations)
@@ -314,6 +376,12 @@ def check(ctx):
         fd.rule = 'C16.NAME'
     for o in ctx.obligations[nob:]:
         o['rule'] = 'C16.NAME'
+    before, nob = len(ctx.findings), len(ctx.obligations)
+    c06.check_adapter(ctx)
+    for fd in ctx.findings[before:]:
+        fd.rule = 'C16.NAME(' + fd.rule + ')'
+    for o in ctx.obligations[nob:]:
+        o['rule'] = 'C16.NAME(' + o['rule'] + ')'
     # remote_* options exist
     opts = prog.options()
     for o in ('remote_content_type', 'remote_timeout'):
